@@ -189,6 +189,8 @@ def r3(ctx, R, g, rx, loop, k):
         elif not line_var[1]:
             prob.append("the line loop does not count from 0")
         for comp, want in ((st, "start"), (en, "end")):
+            if isinstance(comp, ast.Name):
+                comp = deref(ctx, g, comp)  # a local bound once to match.start(k) / match.end(k)
             u = next(((cc, a, kx) for cc, a, kx in uses if cc is comp), None)
             if u is None:
                 prob.append(f"{want} component `{unparse(comp)}` is not {mv}.{want}(k)")
@@ -216,6 +218,8 @@ def r3(ctx, R, g, rx, loop, k):
         base = a_col
         if isinstance(a_col, ast.BinOp) and isinstance(a_col.op, ast.Add) and isinstance(a_col.right, ast.Constant):
             off, base = a_col.right.value, a_col.left
+        if isinstance(base, ast.Name):
+            base = deref(ctx, g, base)
         u = next(((cc, a, kx) for cc, a, kx in uses if cc is base), None)
         if u is None or u[1] != "start" or u[2] not in good or off not in (0, 1):
             prob.append(f"column argument `{unparse(a_col)}` is not start of the name group (+0/+1)")
